@@ -42,7 +42,7 @@ RULE = ("each run draws an upstream behaviour - a complete response (every statu
         "and a downstream peer that waits or leaves early. distinct = distinct (behaviour, status "
         "class, charset, assembly, outcome) signatures; non-trivial = a fault or a non-UTF-8 / "
         "binary / redirect response was relayed")
-PROBES = ["upstream_certificate_renewed_between_requests", "crowd_left_before_the_request", "trickling_upstream", "non_utf8_text_relayed", "binary_relayed", "redirect_relayed", "refused", "blackhole",
+PROBES = ["upstream_failed_several_times_before_the_request", "upstream_certificate_renewed_between_requests", "crowd_left_before_the_request", "trickling_upstream", "non_utf8_text_relayed", "binary_relayed", "redirect_relayed", "refused", "blackhole",
           "tls_failure", "close_before_header", "close_inside_header", "garbage_header",
           "rst_in_body", "stall_timeout", "oversized", "downstream_left_early",
           "start_server_assembly", "every_status_class", "concurrent_requests_through_proxy"]
@@ -240,6 +240,7 @@ def run_one(ch):
     noise_n = 0
     mass_leave = False
     warmup = False
+    bad_patch = False
     if up["beh"] not in (1, 2, 3) and not up.get("stall_handshake") and script[:1] == [("wait_line",)] \
             and ch.chance("noise", 0.3):
         noise_n = 1 + ch.choose("noisen", 3)
@@ -255,12 +256,21 @@ def run_one(ch):
         if mass_leave:
             noise_n = 16 + ch.choose("crowd", 6)
             res.stats["crowd_left_before_the_request"] += 1
+        # ... or a bad patch of the upstream: several earlier requests in a row fail there
+        # (reset / closed before any header), then it is healthy again for the judged request
+        bad_patch = (not mass_leave) and (not warmup) and ch.chance("bad_patch", 0.2)
+        if bad_patch:
+            noise_n = 3 + ch.choose("badn", 4)
+            res.stats["upstream_failed_several_times_before_the_request"] += 1
         main_tail = script[1:]
 
         def dispatch(peer):
             line = bytes(peer.rx_plain).split(b"\r\n")[0]
             if b"/noise" in line:
                 j = line.rsplit(b"/noise", 1)[1][:2].decode("ascii", "replace")
+                if bad_patch:
+                    peer.script[peer.pc:] = [("rst",)] if (j[:1].isdigit() and int(j[:1]) % 2) else [("close",)]
+                    return
                 peer.script[peer.pc:] = [("sleep", 1.0 if mass_leave else 0.01 * (1 + len(j))),
                                          ("send", b"20 text/plain\r\nnoise " + j.encode() + b"\n"),
                                          ("close",)]
@@ -327,7 +337,7 @@ def run_one(ch):
                 nscript += [("sleep", 0.05), ("rst",) if j % 2 else ("close",)]
             noise.append(RawPeer(net, nep, nscript, tls_ctx=sw.peer_tls_ctx(mode), name=f"noise{j}"))
         out["noise"] = noise
-        if mass_leave:
+        if mass_leave or bad_patch:
             await asyncio.sleep(0.3)
             t_req = net.now
         if warmup and upstream is not None:
@@ -369,7 +379,7 @@ def run_one(ch):
                t_upstream_end=marks.get("t_end"), downstream_leaves=leave,
                upstream_connections=nup, request_path=req_path)
     site = f"{up['name'].split('+')[0].split('/')[0]}/{mode}"
-    for j, npeer in enumerate(out.get("noise", []) if not mass_leave else []):
+    for j, npeer in enumerate(out.get("noise", []) if not (mass_leave or bad_patch) else []):
         npeer.drain_final()
         want_n = b"20 text/plain\r\nnoise " + str(j).encode() + b"\n"
         if bytes(npeer.rx_plain) != want_n:
